@@ -5,5 +5,5 @@ CONSTANTS
   Broken = FALSE
   Gen = TRUE
 SPECIFICATION Spec
-INVARIANTS ThinCountsDown ThinErrorRange ThinErrIsCross ThinStepOK ThinDistOK ThinEndOK ThickRemBound ThickPrefixOK ThickEndOK ThickW1IsThin
+INVARIANTS ThinCountsDown ThinErrorRange ThinErrIsCross ThinStepOK ThinDistOK ThinEndOK ThickRemBound ThickPrefixOK ThickEndOK ThickW1IsThin ThickInsideStyledBox ExtentsParallel
 CHECK_DEADLOCK FALSE
